@@ -7,7 +7,7 @@ use spl_frontend::{
     ast::{GlobalDeclaration, Identifier, ProcedureDeclaration},
     table::{GlobalEntry, GlobalTable, LocalTable, SymbolTable},
     tokens::TokenType,
-    AnalyzedSource, ToRange, ToTextRange,
+    AnalyzedSource, Shiftable, ToRange, ToTextRange,
 };
 use tokio::sync::{mpsc::Sender, oneshot};
 
@@ -107,7 +107,14 @@ async fn doc_cursor(
                     Error(_) => None,
                 };
                 if let Some(name) = &name {
-                    doc.table.lookup(&name.value).cloned()
+                    // The entry with this name may belong to someone else:
+                    // a builtin or an earlier declaration, that this one tries to redeclare.
+                    // Such an entry is no context for a cursor inside of this declaration
+                    // (a builtin does not even have tokens).
+                    doc.table
+                        .lookup(&name.value)
+                        .filter(|entry| entry.to_range() == gd.to_range().shift(gd.offset))
+                        .cloned()
                 } else {
                     None
                 }
